@@ -6,6 +6,7 @@ import (
 	"go/token"
 	"go/types"
 	"math/big"
+	"os"
 	"strings"
 
 	"golang.org/x/tools/go/ssa"
@@ -487,6 +488,39 @@ func checkSampleWrite(c *Ctx, rule string) {
 		return true
 	})
 	okTm := false
+	// the time argument may reach the write through copies and conversions
+	// (h := r0; r0 = int64(tm); tm := ...): follow single definitions back to the quotient
+	for depth := 0; tmObj != nil && depth < 4; depth++ {
+		var defs []ast.Expr
+		ast.Inspect(wb.Body(), func(n ast.Node) bool {
+			if as, ok := n.(*ast.AssignStmt); ok && len(as.Lhs) == len(as.Rhs) {
+				for i, l := range as.Lhs {
+					if lid, ok := l.(*ast.Ident); ok && info.ObjectOf(lid) == tmObj {
+						defs = append(defs, as.Rhs[i])
+					}
+				}
+			}
+			return true
+		})
+		if len(defs) != 1 {
+			break
+		}
+		e := unparen(defs[0])
+		if call, ok := e.(*ast.CallExpr); ok && len(call.Args) == 1 {
+			if tv, ok := info.Types[call.Fun]; ok && tv.IsType() {
+				e = unparen(call.Args[0])
+			}
+		}
+		id, ok := e.(*ast.Ident)
+		if !ok {
+			break
+		}
+		v, isV := info.Uses[id].(*types.Var)
+		if !isV {
+			break
+		}
+		tmObj = v
+	}
 	if tmObj != nil {
 		ast.Inspect(wb.Body(), func(n ast.Node) bool {
 			as, ok := n.(*ast.AssignStmt)
@@ -669,7 +703,6 @@ func checkSampleWrite(c *Ctx, rule string) {
 			}
 		}
 	}
-	c.Check(okKf, rule, "a video container is started only at a keyframe sample", wb.Pos(), "initWriter for video is reachable only with keyframe == true; no other caller", "the container can be initialised (and frames written) before a keyframe")
 	// keyframe = (ts == savedKf.Timestamp)
 	okKfDef := false
 	if kfObj != nil && tsObj != nil {
@@ -710,6 +743,143 @@ func checkSampleWrite(c *Ctx, rule string) {
 			return true
 		})
 	}
+	// the same two clauses decided on the paths themselves, for code that sets the flag by
+	// constants under the tests instead of `keyframe = (ts == t.savedKf.Timestamp)`: along
+	// every path from the start of an iteration to the block write the flag's value is
+	// known, and for video it is true exactly with ts == savedKf.Timestamp (false with no
+	// saved keyframe); for other tracks it is true; a video container is initialised only
+	// with that equality
+	if (!okKfDef || !okKf) && tsObj != nil && len(wb.Body().List) > 0 {
+		isTsEq := func(f *Fact) (bool, bool) { // (is the equation, polarity)
+			if f.Op != "eq" || f.B == nil {
+				return false, false
+			}
+			for _, pr := range [][2]*Term{{f.A, f.B}, {f.B, f.A}} {
+				if ps := pretty(pr[1].String()); pr[0].K == 'v' && pr[0].Obj == tsObj && strings.Contains(ps, "savedKf.") && strings.HasSuffix(ps, ".Timestamp") {
+					return true, f.Pos
+				}
+			}
+			return false, false
+		}
+		noKf := func(f *Fact) bool {
+			if f.Op != "eq" || !f.Pos || f.B == nil {
+				return false
+			}
+			for _, pr := range [][2]*Term{{f.A, f.B}, {f.B, f.A}} {
+				if pr[0].K == 'n' && strings.HasSuffix(pretty(pr[1].String()), "savedKf") {
+					return true
+				}
+			}
+			return false
+		}
+		videoOf := func(st *State) (known, video bool) {
+			for _, f := range st.Facts() {
+				if f.Op == "true" && f.A != nil && f.A.K == 'k' && strings.HasSuffix(f.A.Name, "EqualFold") && strings.Contains(f.A.String(), `"video/"`) {
+					return true, f.Pos
+				}
+				// too short to carry the prefix: not video
+				if f.Op == "lt" && !f.Pos && f.A != nil && f.B != nil && f.A.K == 'c' && f.B.K == 'k' && f.B.Name == "len" && (f.A.Name == "6" || f.A.Name == "5") {
+					return true, false
+				}
+			}
+			return false, false
+		}
+		bad := ""
+		nw, ninit := 0, 0
+		ff.PathSearchPSX(wb.Body().List[0], 0, func(n ast.Node, st *State, flag int) (int, bool) {
+			if st == nil {
+				return flag, false
+			}
+			// what this path has established about the sample's timestamp since it was popped
+			// (calls in between forget facts about fields; the saved keyframe is not theirs to change)
+			if as, isAs := n.(*ast.AssignStmt); isAs {
+				for _, l := range as.Lhs {
+					if id, isId := l.(*ast.Ident); isId && info.ObjectOf(id) == tsObj {
+						flag = 0
+					}
+				}
+			}
+			for _, f := range st.Facts() {
+				if is, pol := isTsEq(f); is {
+					if pol {
+						flag |= 1
+					} else {
+						flag |= 2
+					}
+				}
+				if noKf(f) {
+					flag |= 4
+				}
+			}
+			// video initWriter
+			ast.Inspect(n, func(m ast.Node) bool {
+				if _, isLit := m.(*ast.FuncLit); isLit {
+					return false
+				}
+				call, ok := m.(*ast.CallExpr)
+				if !ok || !fnIs(calleeOf(&CallSite{Call: call, In: wb}), "diskwriter", "diskConn", "initWriter") || len(call.Args) == 0 {
+					return true
+				}
+				if tv := info.Types[call.Args[0]]; tv.Value != nil && tv.Value.String() == "0" {
+					return true
+				}
+				ninit++
+				if flag&1 == 0 {
+					bad = "a video container is initialised at " + p.PosStr(call.Pos()) + " on a path without ts == savedKf.Timestamp"
+				}
+				return true
+			})
+			if n.Pos() <= w.Pos() && w.End() <= n.End() {
+				nw++
+				kt := ff.term(w.Args[0])
+				kv, kknown := false, false
+				if tv := info.Types[w.Args[0]]; tv.Value != nil {
+					kv, kknown = tv.Value.String() == "true", true
+				} else if kt != nil {
+					if st.HasFact(mkFact(true, "true", kt, nil)) {
+						kv, kknown = true, true
+					} else if st.HasFact(mkFact(false, "true", kt, nil)) {
+						kv, kknown = false, true
+					}
+				}
+				vknown, video := videoOf(st)
+				eqT, neT, none := flag&1 != 0, flag&2 != 0, flag&4 != 0
+				switch {
+				case !kknown || !vknown:
+					bad = "the keyframe flag or the kind of track is not determined on a path to the block write"
+					if os.Getenv("GALINT_DEBUG_R204") != "" {
+						fmt.Fprintln(os.Stderr, "R20.4 undetermined:", kknown, vknown, st)
+					}
+				case video && kv && !eqT:
+					bad = "a video block is marked as a keyframe on a path without ts == savedKf.Timestamp"
+					if os.Getenv("GALINT_DEBUG_R204") != "" {
+						fmt.Fprintln(os.Stderr, "R20.4 state at write:", flag, st)
+					}
+				case video && !kv && !(neT || none):
+					bad = "a video block is not marked as a keyframe although nothing says its timestamp differs from the saved keyframe's"
+				case !video && !kv:
+					bad = "an audio block is written as a non-keyframe"
+				}
+				return flag, true
+			}
+			return flag, false
+		}, nil, func(int, *State) bool { return false })
+		if os.Getenv("GALINT_DEBUG_R204") != "" {
+			fmt.Fprintln(os.Stderr, "R20.4 path-wise:", bad, nw, ninit)
+		}
+		if bad == "" && nw > 0 && ninit > 0 {
+			okKfDef = true
+			if !okKf {
+				okKf = true
+				for _, cs := range p.CallSites() {
+					if fnIs(calleeOf(cs), "diskwriter", "diskConn", "initWriter") && cs.In != wb {
+						okKf = false
+					}
+				}
+			}
+		}
+	}
+	c.Check(okKf, rule, "a video container is started only at a keyframe sample", wb.Pos(), "initWriter for video is reachable only with keyframe == true; no other caller", "the container can be initialised (and frames written) before a keyframe")
 	c.Check(okKfDef, rule, "a sample is a keyframe iff it carries the saved keyframe's timestamp", wb.Pos(), "keyframe = (ts == t.savedKf.Timestamp)", "the keyframe flag of a block is not derived from the popped sample's timestamp")
 }
 
